@@ -82,7 +82,7 @@ func TestC12(t *testing.T) {
 
 	model := c12Model.On(col, "rapid: well-formed programs interleaving assign, capture, for/tablerow (shadowing outer names and forloop; ended normally and by break), if/unless/case, cycle, followed by a read of every variable; oracle: reference model (flat per-render variable map, loop variable and forloop saved and restored). Non-trivial: expected output fully specified and the program assigns/captures and has a loop or conditional; distinct by template+bindings", false)
 	prof := hx.FullProfile()
-	prof.Tablerow, prof.LoopRecord = true, true
+	prof.Tablerow, prof.LoopRecord, prof.Twins = true, true, true
 	col.Rapid(model.Sub, env.PerShard(env.Pick(150000, 1500000)), func(t *rapid.T) {
 		p := hx.GenProgram(t, prof)
 		p.Nodes = append(p.Nodes, probes()...)
